@@ -1,4 +1,5 @@
 import DoltVerif.Lemmas.ManStoreStep
+import DoltVerif.Lemmas.ManStoreClosureStep
 /-!
 C07 — Committed state never contains dangling references.
 
@@ -269,20 +270,54 @@ theorem acked_chunks_persist (h : Handle) (a : Addr) (ha : h.inTables a = true) 
       simp [hup, this]
   · exact ⟨t, Or.inr ht, hat⟩
 
-/-! ### the full statement, and why it is false as stated -/
+/-! ### the run-level invariant -/
 
-/-- no table files are added to a handle that has not seen a root yet -/
+/-- every `AddTableFilesToManifest` of the schedule is made by a handle that has a root to check against and
+nothing of its own that is not persisted yet (empty memtable, no novel tables): the two shapes in which the
+store's own reference check lets a dangling reference through (both refuted below, both replayed on the
+implementation). -/
 def SafeAdds (env : Env) : Sys → List Op → Prop
   | _, [] => True
-  | s, op :: ops =>
-    (∀ i ts, op = .addTables i ts → (s.hs i).upstream.root ≠ 0) ∧ SafeAdds env (s.next env op).1 ops
+  | s, op :: ops => AddSafe s op ∧ SafeAdds env (s.next env op).1 ops
 
-/-- `persisted_closed_full` (stated, not proved here): for every schedule without unsafe table-file additions,
-the persisted chunk set is closed under references and contains the root. -/
-def persisted_closed_full : Prop :=
-  ∀ (env : Env) (ops : List Op), SafeAdds env Sys.init ops →
-    Closed env (Persisted (Sys.init.run env ops)) ∧
-    ((Sys.init.run env ops).disk.root = 0 ∨ Persisted (Sys.init.run env ops) (Sys.init.run env ops).disk.root)
+theorem rinv_run (env : Env) (s : Sys) (hr : RInv env s) (ops : List Op) (hs : SafeAdds env s ops) : RInv env (s.run env ops) := by
+  induction ops generalizing s with
+  | nil => exact hr
+  | cons op ops ih => exact ih _ (rinv_next env s hr op hs.1) hs.2
+
+/-- `persisted_closed`: for every schedule of the atomic steps of any number of handles (puts with arbitrary
+children, flushes at arbitrary memtable sizes, commits with right and stale `last`, rejected commits, retries,
+lock time-outs, rebases, opens/closes, `WriteTableFile`, safe `AddTableFilesToManifest`), the chunk set named by
+the persisted manifest is closed under references … -/
+theorem persisted_closed (env : Env) (ops : List Op) (hs : SafeAdds env Sys.init ops) :
+    Closed env (Persisted (Sys.init.run env ops)) :=
+  (rinv_run env _ (rinv_init env) ops hs).closed
+
+/-- … and contains the root -/
+theorem root_present (env : Env) (ops : List Op) (hs : SafeAdds env Sys.init ops) :
+    (Sys.init.run env ops).disk.root = 0 ∨ Persisted (Sys.init.run env ops) (Sys.init.run env ops).disk.root :=
+  (rinv_run env _ (rinv_init env) ops hs).root
+
+/-- addresses reachable from `a` through `refs` -/
+inductive Reach (env : Env) (a : Addr) : Addr → Prop
+  | refl : Reach env a a
+  | step {b c : Addr} : Reach env a b → c ∈ env.refs b → Reach env a c
+
+/-- `root_closure_present`: whenever a root is committed, every chunk reachable from it is in the store. -/
+theorem root_closure_present (env : Env) (ops : List Op) (hs : SafeAdds env Sys.init ops) (hroot : (Sys.init.run env ops).disk.root ≠ 0)
+    (a : Addr) (ha : Reach env (Sys.init.run env ops).disk.root a) : Persisted (Sys.init.run env ops) a := by
+  induction ha with
+  | refl => exact (root_present env ops hs).resolve_left hroot
+  | step _ hc ih => exact persisted_closed env ops hs _ ih _ hc
+
+/-- the has-cache of every handle only vouches for chunks that are in one of its novel tables or persisted
+(`hascache_sound`, run level) -/
+theorem hascache_sound (env : Env) (ops : List Op) (hs : SafeAdds env Sys.init ops) (i : Nat) (a : Addr)
+    (ha : a ∈ ((Sys.init.run env ops).hs i).hasCache) :
+    Handle.inNovel ((Sys.init.run env ops).hs i) a = true ∨ Persisted (Sys.init.run env ops) a :=
+  ((rinv_run env _ (rinv_init env) ops hs).hs i).cache a ha
+
+/-! ### the statement without the restriction, and why it is false -/
 
 /-- the statement without the `SafeAdds` restriction -/
 def persisted_closed_unrestricted : Prop :=
@@ -299,7 +334,26 @@ theorem persisted_closed_unrestricted_refuted : ¬ persisted_closed_unrestricted
   revert this
   decide
 
-/-- with a root already present the same addition is refused -/
+def memWitnessEnv : Env := { refs := fun a => if a = 6 then [5] else if a = 7 then [6] else [], size := fun _ => 10 }
+def memWitnessOps : List Op :=
+  [.openH 0 1000, .put 0 3, .cstart 0 3 0, .cresume 0, .put 0 5, .writeTable [6], .addTables 0 [[6]],
+   .openH 1 1000, .put 1 7, .cstart 1 7 3, .cresume 1]
+
+/-- the second shape: the store's reference check for added table files also accepts a reference that only the
+handle's own *unflushed memtable* satisfies.  Handle 0 (root 3 committed) puts chunk 5, adds a table file whose
+chunk 6 references 5; handle 1 commits a root 7 → 6.  The persisted root reaches 5, which is nowhere on disk.
+(Replays on the implementation: design/C07.md.) -/
+theorem addtables_memtable_ref_refuted :
+    ¬ (∀ (env : Env) (ops : List Op), (Sys.init.run env ops).disk.root ≠ 0 →
+        ∀ a, Reach env (Sys.init.run env ops).disk.root a → Persisted (Sys.init.run env ops) a) := by
+  intro h
+  have hroot : (Sys.init.run memWitnessEnv memWitnessOps).disk.root = 7 := by decide
+  have := h memWitnessEnv memWitnessOps (by rw [hroot]; decide) 5
+    (by rw [hroot]; exact .step (.step .refl (by decide : 6 ∈ memWitnessEnv.refs 7)) (by decide : 5 ∈ memWitnessEnv.refs 6))
+  revert this
+  decide
+
+/-- with a root already present and nothing unpersisted the same addition is refused -/
 example :
     let env : Env := { refs := fun a => if a = 1 then [2] else [], size := fun _ => 10 }
     ((Sys.init.run env [.openH 0 100, .put 0 3, .cstart 0 3 0, .cresume 0, .writeTable [1]]).next env (.addTables 0 [[1]])).2
